@@ -254,6 +254,23 @@ class JoinGen:
                       'cross': r.choice(['equal', 'disjoint', 'nested'])}[kind]
         n = n or r.choice([2, 2, 3])
         env, ops, using = self.operands(kind, struct, n)
+        variant = 'plain'
+        if struct == 'equal' and r.random() < 0.08:
+            # self-join: the same dataset twice under two aliases
+            ops[0] = ('a', 'DS_1')
+            ops[1] = ('b', 'DS_1')
+            variant = 'self-join'
+        opexpr = {}
+        if variant == 'plain' and r.random() < 0.1:
+            # an operand that is itself an expression (needs an alias)
+            k = r.randrange(n)
+            al, name = ops[k]
+            al = al or 'e%d' % (k + 1)
+            ops[k] = (al, name)
+            d = env[name]
+            cnd = self.g.cexpr(d['ids'] + d['meas'], 'Boolean', 1)
+            opexpr[k] = ('%s[filter %s]' % (name, cnd[0]), '(filter (ds %s) %s)' % (name, cnd[1]))
+            variant = 'operand-expression'
         opl = [((al or name), env[name]) for al, name in ops]
         vn = virt_names(kind, using, opl)
         # virtual components of the join result, in operand order (identifiers once)
@@ -273,14 +290,14 @@ class JoinGen:
                     seen.add(m[c])
                     comps.append((m[c], t, 'M'))
         btxt, bsx, bkinds, final = self.body(comps, must_resolve=must_resolve)
-        optxt = ', '.join('%s as %s' % (name, al) if al else name for al, name in ops)
+        optxt = ', '.join('%s as %s' % (opexpr[k][0] if k in opexpr else name, al) if al else name for k, (al, name) in enumerate(ops))
         utxt = (' using ' + ', '.join(using)) if using else ''
         vtl = 'DS_r <- %s_join(%s%s%s);' % (kind, optxt, utxt, (' ' + btxt) if btxt else '')
         usx = '(%s)' % ' '.join(name_sx(u) for u in using) if using else '_'
-        sx = '(join %s (%s) %s %s)' % (kind, ' '.join('(%s (ds %s))' % (name_sx(al or name), name) for al, name in ops), usx, bsx)
+        sx = '(join %s (%s) %s %s)' % (kind, ' '.join('(%s %s)' % (name_sx(al or name), opexpr[k][1] if k in opexpr else '(ds %s)' % name) for k, (al, name) in enumerate(ops)), usx, bsx)
         stripped = [c[0].split('#', 1)[1] if '#' in c[0] else c[0] for c in final]
         return {'env': env, 'vtl': vtl, 'sx': sx, 'kind': kind, 'struct': struct, 'nops': n, 'using': using,
-                'body': bkinds, 'aliases': [al is not None for al, _ in ops], 'ops': ['%s_join' % kind] + bkinds,
+                'body': bkinds, 'variant': variant, 'aliases': [al is not None for al, _ in ops], 'ops': ['%s_join' % kind] + bkinds,
                 'dup_names': sorted({v for m in vn for v in m.values() if '#' in v}),
                 'expect_valid': len(set(stripped)) == len(stripped) and struct != 'invalid',
                 'overlap': overlap_class(kind, using, opl), 'flat': True, 'depth': 1}
